@@ -252,7 +252,7 @@ def build(tier):
         Target('read_u32', [read_u32()], P),
         Target('read_u64', [read_u64()], P),
         Target('read_cast_i32_i64', [read_cast1(), read_i32()], P),
-        Target('read_cast_n', [read_castn(), read_cast1(), read_i32()], P),
+        Target('read_cast_n', [read_castn(), read_cast1(), read_i32()], P, timeout=240),   # the hardest SAT instance (20 s alone): survives a loaded machine
         Target('read_ptr_f64', [rd_ptr('read_ptr_f64', 'double')], P),
     ]
     NOCONV = ['--bounds-check', '--pointer-check', '--div-by-zero-check', '--signed-overflow-check', '--pointer-overflow-check']
@@ -291,7 +291,7 @@ def build(tier):
     for tag, scalar, rank in INST:
         pre = f'{D}tensor_{tag}_{rank}.h'
         deps = lambda: [read_u32(), read_u64(), read_castn(), read_cast1(), read_i32(), rd_ptr('read_ptr_' + tag, scalar), hash_version()]
-        targets.append(Target(f'tensor_read_{tag}_{rank}', [tensor_read('tensor_read', scalar, rank)] + deps(), pre, loops=0, unwind=NV_UNWIND, cbmc_flags=CADICAL))
+        targets.append(Target(f'tensor_read_{tag}_{rank}', [tensor_read('tensor_read', scalar, rank)] + deps(), pre, loops=0, unwind=NV_UNWIND, cbmc_flags=CADICAL, timeout=240))
         wdeps = [write_u32(), write_u64(), write_i32(), write_castn(), wr_ptr('write_ptr_' + tag, scalar), hash_version()]
         targets.append(Target(f'tensor_write_{tag}_{rank}', [tensor_write('tensor_write', scalar, rank)] + wdeps, pre, loops=0, unwind=NV_UNWIND, cbmc_flags=CADICAL))
         if rank <= 2:   # the obligations that pin the repair of the dims validation (they failed before 81b3596); rank 4 is covered by the main target
